@@ -12,10 +12,11 @@ pub const ENGINE_THREADS: u64 = 2;
 pub const ENGINE_LOCKSTEP: u64 = 3;
 
 fn sched_for(k: u64) -> Sched {
-    match k % 4 {
+    match k % 5 {
         0 | 1 => Sched::Random,
         2 => Sched::Pct { depth: 2 },
-        _ => Sched::Pct { depth: 3 },
+        3 => Sched::Pct { depth: 3 },
+        _ => Sched::Urw,
     }
 }
 
